@@ -18,7 +18,3 @@ NA.update({
     "C11": _QUEUE % ("c02_join.rs", "The listener step (CoroutineCreator::on_state_changed from an arbitrary running count) is decided, but on its own it does not decide the property (a worker dropped by the scheduler's pending-cancel branch never reaches the listener), so it is not claimed."),
     "C13": _QUEUE % ("c02_join.rs", "A genuine defect was shown natively and is documented: the waiter of a task cancelled before it starts sleeps its whole timeout (ocv-replay pool_cancel 1)."),
 })
-NA.update({
-    "C12": "harnesses exist (lifecycle one-way, rejected submissions, waiters settled on stop - the last one found the do_clean self-deadlock repaired in 22fd983); not claimed until its quick check has run green end-to-end from the committed tree",
-    "C23": "harnesses exist (coroutine and thread growth paths, non-unwinding half); the coroutine-path harness has not produced a verdict yet, not claimed until it runs green",
-})
